@@ -6,6 +6,7 @@ optimize; each on gaussian, fock, bosonic, including a measured parameter crossi
 C10: circuits with free / measured / arithmetic symbolic parameters give the same state as the circuit with the
 values substituted, through compile, decomposition and optimisation.
 usage: c09_engine.py <tier> <seed>"""
+import itertools
 import copy, os, sys, warnings
 warnings.filterwarnings("ignore")
 sys.path.insert(0, os.path.dirname(os.path.dirname(os.path.abspath(__file__))))
@@ -119,11 +120,18 @@ def check_handover_with_register_changes():
         "measure q2 and q1, Del q0, feed q1's outcome to q2": (lambda q: (ops.MeasureHomodyne(0.0, select=-0.4) | q[2], ops.MeasureHomodyne(0.0, select=0.7) | q[1], ops.Del | q[0]), 1, 2),
         "Del q1, measure q2, feed q0": (lambda q: (ops.Del | q[1], ops.MeasureHomodyne(0.0, select=0.7) | q[2]), 2, 0),
     }
+    # the LATER segment changes the register too (deletes / creates modes before or after feeding forward)
+    seg2s = {
+        "": lambda p2, src, dst: (ops.Xgate(p2.reg_refs[src].par) | p2.reg_refs[dst],),
+        "; successor deletes the measured mode afterwards": lambda p2, src, dst: (ops.Xgate(p2.reg_refs[src].par) | p2.reg_refs[dst], ops.Del | p2.reg_refs[src]),
+        "; successor creates a mode first": lambda p2, src, dst: (ops.New(1), ops.Xgate(p2.reg_refs[src].par) | p2.reg_refs[dst]),
+    }
     for backend in ("gaussian", "fock"):
         kw = {"cutoff_dim": 10} if backend == "fock" else {}
         tol = 2e-2 if backend == "fock" else 1e-8
-        for label, (seg1, src, dst) in variants.items():
+        for (label, (seg1, src, dst)), (l2, seg2) in itertools.product(variants.items(), seg2s.items()):
             EVAL[0] += 1
+            label = label + l2
 
             def xmean(state, prog_last):
                 # position of mode dst among the live modes
@@ -136,22 +144,25 @@ def check_handover_with_register_changes():
                     seg1(q)
                 p2 = sf.Program(p1)
                 with p2.context as q:
-                    ops.Xgate(p2.reg_refs[src].par) | p2.reg_refs[dst]
+                    seg2(p2, src, dst)
+                reg1 = [(r.ind, r.active) for r in p1.reg_refs.values()]
                 eng = sf.Engine(backend, backend_options=kw)
                 res["run([p1, p2])"] = xmean(eng.run([p1, p2]).state, p2)
+                if [(r.ind, r.active) for r in p1.reg_refs.values()] != reg1:
+                    bad(f"{backend} [{label}]: writing / running the successor changed the register of the first program: {reg1} -> {[(r.ind, r.active) for r in p1.reg_refs.values()]}")
                 p1 = sf.Program(3)
                 with p1.context as q:
                     seg1(q)
                 p2 = sf.Program(p1)
                 with p2.context as q:
-                    ops.Xgate(p2.reg_refs[src].par) | p2.reg_refs[dst]
+                    seg2(p2, src, dst)
                 eng = sf.Engine(backend, backend_options=kw)
                 eng.run(p1)
                 res["run(p1); run(p2)"] = xmean(eng.run(p2).state, p2)
                 pc = sf.Program(3)
                 with pc.context as q:
                     seg1(q)
-                    ops.Xgate(pc.reg_refs[src].par) | pc.reg_refs[dst]
+                    seg2(pc, src, dst)
                 res["run(p1 ++ p2)"] = xmean(sf.Engine(backend, backend_options=kw).run(pc).state, pc)
             except Exception as e:
                 bad(f"{backend} [{label}]: raised {type(e).__name__}: {str(e)[:150]} (after {list(res)})")
@@ -329,6 +340,55 @@ def check_measured_functions():
             bad(f"C10: heterodyne outcome 0.3+0.4j fed forward through {name}: (<x>,<p>) of mode 1 = {np.round(got, 4).tolist()}, the substituted circuit gives {list(expect)}")
 
 
+def check_array_parameters():
+    """C10: ARRAY-valued parameters whose elements are expressions of measured parameters (the documented way to build
+    them: number array * q.par) behave like the substituted arrays - with and without the optimiser / scheduler, when the
+    operation acts on another mode than the measured one, and when the mode is measured twice (most recent outcome)."""
+    pf = sf.math
+    V2 = np.diag([0.5488, 1.8221])
+    c = np.array([1.0, 0.5])
+    builders = {
+        "number-array * q": lambda qp: c * qp,
+        "array of functions": lambda qp: np.array([pf.sin(qp) + qp, 0.5 * qp], dtype=object),
+        "array mixing a number and an expression": lambda qp: np.array([0.25, 2 * qp], dtype=object),
+    }
+    numeric = {
+        "number-array * q": lambda v: c * v,
+        "array of functions": lambda v: np.array([np.sin(v) + v, 0.5 * v]),
+        "array mixing a number and an expression": lambda v: np.array([0.25, 2 * v]),
+    }
+    for name, build in builders.items():
+        for twice in (False, True):
+            for optimize in (False, True):
+                EVAL[0] += 1
+                prog = sf.Program(2)
+                with prog.context as q:
+                    ops.Squeezed(0.4, 0) | q[0]
+                    ops.MeasureHomodyne(0, select=0.7) | q[0]
+                    if twice:
+                        ops.Dgate(0.5 * q[0].par, 0) | q[1]
+                        ops.Squeezed(0.3, 0) | q[0]
+                    r = build(q[0].par)
+                    if twice:
+                        ops.MeasureHomodyne(0, select=-0.4) | q[0]
+                        # the array parameter is built from the symbol; it must see the outcome of the measurement
+                        # that precedes the operation in program order
+                    ops.Gaussian(V2, r=r, decomp=False) | q[1]
+                last = -0.4 if twice else 0.7
+                label = f"C10: Gaussian(V, r={name}) | q[1] after {'two measurements' if twice else 'a measurement'} of q[0], optimize={optimize}"
+                try:
+                    if optimize:
+                        prog = prog.optimize()
+                    st = sf.Engine("gaussian").run(prog).state
+                    got = np.array([st.quad_expectation(1, 0)[0], st.quad_expectation(1, np.pi / 2)[0]])
+                except Exception as ex:
+                    bad(f"{label}: raised {type(ex).__name__}: {str(ex)[:150]} (the substituted circuit runs)")
+                    continue
+                want = numeric[name](last)
+                if not np.allclose(got, want, atol=1e-8):
+                    bad(f"{label}: means of mode 1 = {np.round(got, 4).tolist()}, the substituted circuit gives {np.round(want, 4).tolist()}")
+
+
 def check_symbol_identity():
     """F11: same-named symbols of different programs"""
     EVAL[0] += 1
@@ -342,8 +402,8 @@ def check_symbol_identity():
 
 if __name__ == "__main__":
     prop = sys.argv[3] if len(sys.argv) > 3 else "both"
-    fns = {"C09": (check_sequencing, check_handover_with_register_changes, check_untouched), "C10": (check_symbolic, check_measured_functions, check_symbol_identity)}.get(
-        prop, (check_sequencing, check_handover_with_register_changes, check_untouched, check_symbolic, check_measured_functions, check_symbol_identity))
+    fns = {"C09": (check_sequencing, check_handover_with_register_changes, check_untouched), "C10": (check_symbolic, check_measured_functions, check_array_parameters, check_symbol_identity)}.get(
+        prop, (check_sequencing, check_handover_with_register_changes, check_untouched, check_symbolic, check_measured_functions, check_array_parameters, check_symbol_identity))
     for f in fns:
         try:
             f()
